@@ -273,6 +273,12 @@ def emit_structured(interp, contract, path, name, spec, bound, result, known=(),
             if lname not in (contract.lemmas or {}):
                 raise CheckerFault(f"{contract.key}: `use` of {lname!r}, which is not a declared lemma")
             path.assume(contract.eval_clause(interp, u, bound, extra))
+        for u in spec.get("use_axiom", []):
+            # instance of a TRUSTED axiom declared by the contract (reported in the evidence's trusted base)
+            aname = u.split("(", 1)[0].strip()
+            if aname not in (getattr(contract, "axioms", None) or {}):
+                raise CheckerFault(f"{contract.key}: `use_axiom` of {aname!r}, which is not a declared axiom")
+            path.assume(contract.eval_clause(interp, u, bound, extra))
         for i, st in enumerate(spec.get("steps", [])):
             hint = None
             if isinstance(st, (tuple, list)):
@@ -284,6 +290,7 @@ def emit_structured(interp, contract, path, name, spec, bound, result, known=(),
             path.assume(g)
         g = contract.eval_clause(interp, spec["show"], bound, extra)
         path.oblige(f"ensures.{name}", g, {"kind": "ensures", "clause": native_clause, "clause_name": name,
+                                           "hint": spec.get("hint"),
                                            "qvars": {v: f"{name}__{v}" for v in spec.get("vars", {})}})
     finally:
         path.conds[:] = saved
@@ -693,6 +700,10 @@ def finish(run, exit_code):
         "pyvc (this repository's VC generator: symex.py, values.py, arrays.py, contract.py)",
         "library contracts in pyvc/stubs*.py (numpy / scipy / dask / polars behaviour), conformance-tested in conform.py",
     ] + [f"trusted contract (body not verified): {rep.key}" for rep in run.reports if rep.trusted] + run.extra_trusted
+    for c in C.REGISTRY.values():
+        if run.pid in c.props:
+            for an, doc in (getattr(c, "axioms", None) or {}).items():
+                trusted.append(f"trusted axiom {an} ({c.key}): {doc}")
     ev = {
         "property_id": run.pid,
         "tier": run.tier,
